@@ -1,6 +1,7 @@
 import VlsModel.Model.Hmac
 import VlsModel.Gen.HmacFn
 import VlsModel.Gen.FnPersistMod
+import VlsModel.Gen.FnPersistMut
 import VlsModel.Gen.FnHmacRs
 import VlsModel.Gen.FnLssUtil
 import VlsModel.Gen.FnLssFront
@@ -370,6 +371,21 @@ theorem C17_fn_mutations_inner (m : List RsRec) : Mutations.inner m = m := rfl
 theorem C17_fn_mutations_into_inner (m : List RsRec) : Mutations.into_inner m = m := rfl
 theorem C17_fn_mutations_is_empty (m : List RsRec) : Mutations.is_empty m = m.isEmpty := rfl
 theorem C17_fn_mutations_len (m : List RsRec) : Mutations.len m = m.length := rfl
+
+/-! Round 10 (b7): the three remaining accessors of `Mutations` (`Gen/FnPersistMut.lean`; the `impl Iterator<Item = …>` return
+    types are normalised to the list of the yielded items, `&Self::Output` is written out).  `iter()` is what
+    `compute_shared_hmac` folds over and `into_iter()` what `Client::put` converts: both yield exactly the records of
+    the list, in the order of the list (no sorting, no deduplication); `m[i]` is the i-th record or a panic. -/
+theorem C17_fn_mutations_iter (m : List RsRec) : Gen.FnPersistMut.Mutations.iter m = m := rfl
+theorem C17_fn_mutations_into_iter (m : List RsRec) : Gen.FnPersistMut.Mutations.into_iter m = m := rfl
+theorem C17_fn_mutations_index (m : List RsRec) (i : Nat) :
+    Gen.FnPersistMut.Mutations.index m i = match m[i]? with | some r => .ok r | none => .error .panic := by
+  unfold Gen.FnPersistMut.Mutations.index Rs.index
+  cases m[i]? <;> rfl
+example : Gen.FnPersistMut.Mutations.index [("b", (1, [2])), ("a", (0, []))] 1 = .ok ("a", (0, [])) := by
+  rw [C17_fn_mutations_index]; rfl
+example : Gen.FnPersistMut.Mutations.iter [("b", (1, [2])), ("a", (0, [])), ("b", (1, [2]))]
+    = [("b", (1, [2])), ("a", (0, [])), ("b", (1, [2]))] := C17_fn_mutations_iter _
 
 /-- what is taken out is what was put in, for every way of building the value: the list that reaches
     `compute_shared_hmac` (through `iter()` = the same component) is the list received / logged -/
